@@ -1,20 +1,74 @@
-/* std::vector<T> model: pointer + length (DESIGN.md 3.2).  Accessors are inline C, so an out-of-range index is a
-   failing pointer check in the caller.  Growth (push_back/resize/insert) re-allocates; capacity is not modelled. */
+/* std::vector<T> model: pointer + length (DESIGN.md 3.2).
+   Accessors are inline C in both modes, so an out-of-range index is a failing pointer check in the caller.
+   Proof mode   (VERIF_MODE_PROOF):   growth operations are contract stubs: new length exact, storage fresh,
+                                      element contents after growth unspecified (safety / length proofs only).
+   Bounded mode (VERIF_MODE_BOUNDED): executable; every vector owns VEC_BCAP slots; exceeding the capacity fails the
+                                      assertion "verif_model_bound", which the runner reports as undecided, not as a violation. */
 #ifndef VERIF_VEC_H
 #define VERIF_VEC_H
 #include "verif.h"
 #define VEC_CAP 65536UL
-#define VEC_DECL(T, V) \
+#ifndef VEC_BCAP
+#define VEC_BCAP 8
+#endif
+
+#define VEC_COMMON(T, V) \
   typedef struct V { T *d; unsigned long n; } V; \
   static inline unsigned long V##__size(const V *v) { return v->n; } \
   static inline _Bool V##__empty(const V *v) { return v->n == 0; } \
   static inline T *V##__op_index(const V *v, unsigned long i) { return &v->d[i]; } \
-  static inline T *V##__at_unchecked(const V *v, unsigned long i) { return &v->d[i]; } \
   static inline T *V##__at(const V *v, unsigned long i) { if (i >= v->n) { verif_exc = EXC_std_out_of_range; return (T*)0; } return &v->d[i]; } \
   static inline T *V##__front(const V *v) { return &v->d[0]; } \
   static inline T *V##__back(const V *v) { return &v->d[v->n - 1]; } \
-  static inline void V##__ctor_0(V *v) { v->d = 0; v->n = 0; } \
+  static inline T *V##__begin(const V *v) { return v->d; } \
+  static inline T *V##__end(const V *v) { return v->d + v->n; } \
+  static inline T *V##__data(const V *v) { return v->d; } \
   static inline void V##__clear(V *v) { v->n = 0; } \
   static inline void V##__pop_back(V *v) { __CPROVER_assert(v->n > 0, "pop_back on an empty vector (undefined behaviour)"); v->n = v->n - 1; }
+
+#ifdef VERIF_MODE_BOUNDED
+#define VEC_DECL(T, V) VEC_COMMON(T, V) \
+  static inline void V##__ctor_0(V *v) { v->d = (T*)verif_new_array(VEC_BCAP, sizeof(T)); v->n = 0; } \
+  static inline void V##__push_back(V *v, const T *x) { __CPROVER_assert(v->n < VEC_BCAP, "verif_model_bound: vector capacity of the bounded model exceeded"); __CPROVER_assume(v->n < VEC_BCAP); v->d[v->n] = *x; v->n = v->n + 1; } \
+  static inline void V##__ctor_1(V *v, unsigned long n) { __CPROVER_assert(n <= VEC_BCAP, "verif_model_bound: vector capacity of the bounded model exceeded"); __CPROVER_assume(n <= VEC_BCAP); v->d = (T*)verif_new_array(VEC_BCAP, sizeof(T)); v->n = n; for (unsigned long i = 0; i < n; ++i) v->d[i] = (T){0}; } \
+  static inline void V##__ctor_2(V *v, unsigned long n, const T *x) { __CPROVER_assert(n <= VEC_BCAP, "verif_model_bound: vector capacity of the bounded model exceeded"); __CPROVER_assume(n <= VEC_BCAP); v->d = (T*)verif_new_array(VEC_BCAP, sizeof(T)); v->n = n; for (unsigned long i = 0; i < n; ++i) v->d[i] = *x; } \
+  static inline void V##__ctor_copy(V *v, const V *o) { v->d = (T*)verif_new_array(VEC_BCAP, sizeof(T)); v->n = o->n; for (unsigned long i = 0; i < o->n; ++i) v->d[i] = o->d[i]; } \
+  static inline V V##__make_copy(const V *o) { V r; V##__ctor_copy(&r, o); return r; } \
+  static inline V V##__make_0(void) { V r; V##__ctor_0(&r); return r; } \
+  static inline V V##__make_1(unsigned long n) { V r; V##__ctor_1(&r, n); return r; } \
+  static inline V *V##__op_assign(V *v, const V *o) { if (v != o) { T *nd = (T*)verif_new_array(VEC_BCAP, sizeof(T)); for (unsigned long i = 0; i < o->n; ++i) nd[i] = o->d[i]; v->d = nd; v->n = o->n; } return v; } \
+  static inline void V##__resize(V *v, unsigned long n) { __CPROVER_assert(n <= VEC_BCAP, "verif_model_bound: vector capacity of the bounded model exceeded"); __CPROVER_assume(n <= VEC_BCAP); for (unsigned long i = v->n; i < n; ++i) v->d[i] = (T){0}; v->n = n; } \
+  static inline void V##__resize_2(V *v, unsigned long n, const T *x) { __CPROVER_assert(n <= VEC_BCAP, "verif_model_bound: vector capacity of the bounded model exceeded"); __CPROVER_assume(n <= VEC_BCAP); for (unsigned long i = v->n; i < n; ++i) v->d[i] = *x; v->n = n; } \
+  static inline T *V##__erase(V *v, T *pos) { \
+    __CPROVER_assert(__CPROVER_same_object(pos, v->d) && pos >= v->d && pos < v->d + v->n, "erase with an iterator that is not dereferenceable in this vector (undefined behaviour)"); \
+    unsigned long k = (unsigned long)(pos - v->d); for (unsigned long i = k; i + 1 < v->n; ++i) v->d[i] = v->d[i + 1]; v->n = v->n - 1; return pos; } \
+  static inline T *V##__insert(V *v, T *pos, const T *x) { \
+    __CPROVER_assert(v->n < VEC_BCAP, "verif_model_bound: vector capacity of the bounded model exceeded"); __CPROVER_assume(v->n < VEC_BCAP); \
+    __CPROVER_assert(__CPROVER_same_object(pos, v->d) && pos >= v->d && pos <= v->d + v->n, "insert with an iterator outside this vector (undefined behaviour)"); \
+    unsigned long k = (unsigned long)(pos - v->d); T val = *x; for (unsigned long i = v->n; i > k; --i) v->d[i] = v->d[i - 1]; v->d[k] = val; v->n = v->n + 1; return pos; }
+#else
+#define VEC_DECL(T, V) VEC_COMMON(T, V) \
+  static inline void V##__ctor_0(V *v) { v->d = 0; v->n = 0; } \
+  void V##__push_back(V *v, const T *x) \
+    __CPROVER_requires(v->n < VEC_CAP) \
+    __CPROVER_ensures(v->n == __CPROVER_old(v->n) + 1 && __CPROVER_is_fresh(v->d, v->n * sizeof(T))) \
+    __CPROVER_assigns(v->d, v->n); \
+  void V##__ctor_1(V *v, unsigned long n) \
+    __CPROVER_requires(n <= VEC_CAP) \
+    __CPROVER_ensures(v->n == n && (n == 0 || __CPROVER_is_fresh(v->d, n * sizeof(T)))) \
+    __CPROVER_assigns(v->d, v->n); \
+  void V##__ctor_2(V *v, unsigned long n, const T *x) \
+    __CPROVER_requires(n <= VEC_CAP) \
+    __CPROVER_ensures(v->n == n && (n == 0 || __CPROVER_is_fresh(v->d, n * sizeof(T)))) \
+    __CPROVER_assigns(v->d, v->n); \
+  void V##__ctor_copy(V *v, const V *o) \
+    __CPROVER_requires(o->n <= VEC_CAP) \
+    __CPROVER_ensures(v->n == o->n && (v->n == 0 || __CPROVER_is_fresh(v->d, v->n * sizeof(T)))) \
+    __CPROVER_assigns(v->d, v->n); \
+  void V##__resize(V *v, unsigned long n) \
+    __CPROVER_requires(n <= VEC_CAP) \
+    __CPROVER_ensures(v->n == n && (n == 0 || __CPROVER_is_fresh(v->d, n * sizeof(T)))) \
+    __CPROVER_assigns(v->d, v->n);
+#endif
 #define VEC_FRESH(v) ((v)->n <= VEC_CAP && ((v)->n == 0 || __CPROVER_is_fresh((v)->d, (v)->n * sizeof(*(v)->d))))
 #endif
